@@ -1,6 +1,13 @@
 /* Native replay for C07/C20 (pshm-posix.c against the real kernel).
  * mode free_maplen: a 3-page segment re-opened with a smaller size and freed again must leave no mapping behind.
- * mode zero_size: a leftover segment of size 0 (process killed between shm_open and ftruncate) must be openable for clean-up. */
+ * mode zero_size: a leftover segment of size 0 (process killed between shm_open and ftruncate) must be openable for clean-up.
+ * mode first_open_race: creator A is held at its first sem_open() (interposed) until opener B has finished p_shm_new on the
+ *   same name; afterwards A and B must exclude each other through p_shm_lock. */
+#define _GNU_SOURCE
+#include <dlfcn.h>
+#include <pthread.h>
+#include <semaphore.h>
+#include <stdarg.h>
 #include <plibsys.h>
 #include <stdio.h>
 #include <stdlib.h>
@@ -16,6 +23,23 @@ static int maps_of (const char *key)
 	if (f) fclose (f);
 	return n;
 }
+/* ---- forced interleaving for first_open_race */
+static volatile int race_on, gate_passed, b_done, b_locked;
+static pthread_t creator_thread; static const char *race_name; static PShm *race_b;
+static void *opener (void *arg) { race_b = p_shm_new (race_name, 4096, P_SHM_ACCESS_READWRITE, NULL); b_done = 1; return NULL; }
+static void *b_locker (void *arg) { if (p_shm_lock (race_b, NULL)) { b_locked = 1; p_shm_unlock (race_b, NULL); } return NULL; }
+sem_t *sem_open (const char *name, int oflag, ...)
+{
+	static sem_t *(*real) (const char *, int, ...);
+	if (!real) real = (sem_t *(*) (const char *, int, ...)) dlsym (RTLD_NEXT, "sem_open");
+	va_list ap; va_start (ap, oflag); unsigned mode = 0, value = 0; if (oflag & O_CREAT) { mode = va_arg (ap, unsigned); value = va_arg (ap, unsigned); } va_end (ap);
+	if (race_on && !gate_passed && pthread_equal (pthread_self (), creator_thread)) {
+		gate_passed = 1;                         /* the creator has created, sized and mapped the segment; its lock does not exist yet */
+		pthread_t t; pthread_create (&t, NULL, opener, NULL);
+		pthread_join (t, NULL);                  /* the second "process" opens the name completely in the meantime */
+	}
+	return (oflag & O_CREAT) ? real (name, oflag, mode, value) : real (name, oflag);
+}
 int main (int argc, char **argv)
 {
 	const char *mode = argc > 1 ? argv[1] : "free_maplen";
@@ -29,6 +53,23 @@ int main (int argc, char **argv)
 		PShm *s = p_shm_new (name, 0, P_SHM_ACCESS_READWRITE, NULL);
 		if (s == NULL) { printf ("REPRODUCED: zero-size leftover cannot be opened for clean-up (p_shm_new returns NULL)\n"); bad = 1; shm_unlink (key); }
 		else { p_shm_take_ownership (s); p_shm_free (s); }
+	} else if (!strcmp (mode, "first_open_race")) {
+		race_name = name; creator_thread = pthread_self (); race_on = 1;
+		PShm *a = p_shm_new (name, 4096, P_SHM_ACCESS_READWRITE, NULL);
+		race_on = 0;
+		if (a == NULL || race_b == NULL) {
+			printf ("REPRODUCED: concurrent first open: %s failed although no system call reported a fault\n", a == NULL ? "the creator's p_shm_new" : "the opener's p_shm_new"); bad = 1;
+		} else {
+			p_shm_lock (a, NULL);                    /* A holds the lock of the name ... */
+			pthread_t t; pthread_create (&t, NULL, b_locker, NULL);
+			for (int i = 0; i < 100 && !b_locked; i++) usleep (10000);
+			if (b_locked) { printf ("REPRODUCED: concurrent first open: both handles of the name held p_shm_lock at the same time (their lock semaphores differ)\n"); bad = 1; }
+			p_shm_unlock (a, NULL);                  /* ... release it so that a correctly blocked B can finish */
+			pthread_join (t, NULL);
+		}
+		if (race_b) p_shm_free (race_b);
+		if (a) { p_shm_take_ownership (a); p_shm_free (a); }
+		{ char semfull[160]; pchar *k2; snprintf (semfull, sizeof semfull, "%s_p_sem_object", key); k2 = p_ipc_get_platform_key (semfull, TRUE); if (k2) { sem_unlink (k2); p_free (k2); } shm_unlink (key); }
 	} else {
 		PShm *a = p_shm_new (name, 3 * 4096, P_SHM_ACCESS_READWRITE, NULL);
 		if (!a) { printf ("setup failed\n"); return 0; }
